@@ -26,7 +26,7 @@ type vhTagTok struct {
 }
 
 // the first vhAlphabetSize entries are used
-const vhAlphabetSize = 15 // @tier quick=15 thorough=22
+const vhAlphabetSize = 15 // @tier quick=15 thorough=18
 
 var vhTagAlphabetAll = []vhTagTok{
 	{"@", '@', "@"}, {"!", '!', "!"}, {"~", '~', "~"}, {"?", '?', "?"}, {"*", '*', "*"}, {"+", '+', "+"},
@@ -42,7 +42,7 @@ var vhTagAlphabet = vhTagAlphabetAll[:vhAlphabetSize]
 var vhSmallAlphabet = []int{0, 1, 3, 6, 7, 10, 12, 14}
 
 // field types: the first vhNumFieldTypes entries are used
-const vhNumFieldTypes = 6 // @tier quick=6 thorough=11
+const vhNumFieldTypes = 6 // @tier quick=6 thorough=8
 
 // vhSoupField is the token list chosen for one field's tag (keyed by the
 // tag lexer's file name): the same field always lexes to the same tokens,
